@@ -103,7 +103,7 @@ P = {
          'h5py call, both write paths, small and multi-megabyte payloads; the real loader must raise before the final close and load exactly afterwards; recorded call trace = Lean writer trace. '
          'PARTIAL: HDF5 flush policy is the sampled assumption.',
          '§5 C19', 'os._exit models a crash; libhdf5 behaviour assumed.'),
- 'C11': (False, 'Lean 4 theorems (CSV round-trip with the exact excluded class; archive keys-only round-trip) + correspondence on real result sets',
+ 'C11': (True, 'Lean 4 theorems (CSV round-trip with the exact excluded class; archive keys-only round-trip) + correspondence on real result sets',
          'Theorems: csv_parse, csv_columns, fieldOk_false_iff, archive_roundtrip, archive_needs_unique_keys. Tie: exporters and ResultsArchiveReader on results of real queries on scratch databases with '
          'awkward names; CSV text = Lean writeCsv of rows built from the real objects and parses back; JSON projections; archive equal under == and field by field. Open finding C11-F1 (bare CR).',
          '§5 C11, §4.5', 'Python json/csv parsing of outputs; float str().'),
